@@ -1,6 +1,7 @@
 """Token-level helpers: dump of a kernpy token in the format of model/RunTok.v, CKL token generators
 (notes / rests / chords with signifier layouts, barlines, interpretations) and the exhaustive
 single-character / pair sweep that validates the scanner's signifier tables."""
+import copy
 import itertools
 
 C1, C2, C3, C4, C5 = '\x01', '\x02', '\x03', '\x04', '\x05'
@@ -126,7 +127,11 @@ def gen_chord(rng, rest_in_chord=0.03):
     with_acc = rng.random() < 0.6
     parts, asts = [], []
     for i in range(n):
-        if rng.random() < rest_in_chord:
+        if i > 0 and rng.random() < 0.12:
+            # a doubling: an element that repeats an earlier one of this chord to the letter (unisons, `8r 8r`)
+            k = rng.randrange(i)
+            t, a = parts[k], copy.deepcopy(asts[k])
+        elif rng.random() < rest_in_chord:
             t, a = gen_rest(rng)
         else:
             t, a = gen_note(rng, allow_display_decos=not with_acc, acc=None if with_acc else '')
